@@ -82,6 +82,28 @@ pub fn gen_cancel_case(rng: &mut Rng) -> Vec<String> {
     lines
 }
 
+/// C12 with requests in flight: as `gen_cancel_case` with an asynchronous provider (1/2 of the cases with asynchronous
+/// filter/sort too) under a seeded schedule; the plan is drawn from the uncancelled run *under the same schedule*.
+pub fn gen_cancel_async_case(rng: &mut Rng) -> Vec<String> {
+    let kind = *rng.pick(&[Kind::General, Kind::Tight, Kind::Hints, Kind::Soft, Kind::Lazy]);
+    let g = gen::generate(rng, kind);
+    let mut lines = g.u.to_lines();
+    lines.push(g.p.to_line());
+    let mut cfg = Config { render: false, mode: "async".into(), ..Config::default() };
+    cfg.sched = match rng.below(4) { 0 => "fifo".into(), 1 => "lifo".into(), _ => format!("rand:{}", rng.below(1 << 30)) };
+    cfg.gate_fs = rng.chance(1, 2);
+    let mut probe = lines.clone();
+    probe.push(cfg.to_line());
+    let out = run_case(&probe);
+    let polls: usize = out.iter().find_map(|l| l.strip_prefix("polls ").and_then(|x| x.parse().ok())).unwrap_or(1);
+    let calls: usize = out.iter().find(|l| l.starts_with("calls")).map(|l| l.split(' ').filter(|w| w.starts_with('c') && *w != "calls" || w.starts_with('d')).count()).unwrap_or(0);
+    cfg.transient = rng.chance(1, 3);
+    if calls > 0 && rng.chance(1, 2) { cfg.cancel_call = Some(rng.below(calls as u64) as usize); }
+    else { cfg.cancel = Some(rng.below(polls as u64 + 1) as usize); }
+    lines.push(cfg.to_line());
+    lines
+}
+
 /// C13: several solves on one solver (same or different problems, optionally with a transient
 /// cancellation somewhere in the history so that later solves run after a Cancelled outcome).
 pub fn gen_reuse_case(rng: &mut Rng, async_mode: bool) -> Vec<String> {
